@@ -1,17 +1,40 @@
 import LunaVerif.Core.Proto
 import LunaVerif.Model.Usb2.InTransferManager
+import LunaVerif.Lemmas.C11Host
 open LunaVerif LunaVerif.Proto LunaVerif.InXfer
+
+/-- Running digest of what the observer of `Lemmas/C11Host.lean` (the specification side of
+`in_exactly_once` / `transfer_ends_short_or_zlp`) has accumulated: number of packets the host kept, number
+of bytes in them, a rolling hash of their contents (with packet boundaries), number of bytes the producer
+handed over.  The harness compares these, cycle by cycle, with the host view that its independent Python
+monitor computes from the REAL gateware's trace — so the Lean specification's reading of the interface is
+itself tied to the real code. -/
+structure Digest where
+  npk   : Nat
+  nb    : Nat
+  hash  : Nat
+  nprod : Nat
+
+def Digest.addPacket (d : Digest) (p : List Nat) : Digest :=
+  { d with npk := d.npk + 1, nb := d.nb + p.length,
+           hash := (p.foldl (fun h b => (h * 257 + b + 1) % 1000003) d.hash) * 257 % 1000003 }
 
 /-- config line: `# max_packet_size`;
 input line: `active is_in ready_for_response new_token ack s_valid s_payload s_last flush discard generate_zlps
 reset_sequence start_with_data1 tx_ready`;
-output line: `s_ready valid first last payload data_pid nak buffer_toggle`. -/
+output line: `s_ready valid first last payload data_pid nak buffer_toggle` followed by the observer digest
+`obs_packets obs_bytes obs_hash obs_produced` (after this cycle). -/
 def main : IO Unit :=
-  runDriver (σ := Config × State)
-    (fun cfg => let c : Config := ⟨fld cfg 0⟩; (c, init c))
-    (fun (c, s) i =>
+  runDriver (σ := Config × State × Obs × Digest)
+    (fun cfg => let c : Config := ⟨fld cfg 0⟩; (c, init c, obsInit, ⟨0, 0, 0, 0⟩))
+    (fun (c, s, g, d) i =>
       let b := fun k => n2b (fld i k)
       let inp : In := ⟨b 0, b 1, b 2, b 3, b 4, b 5, fld i 6, b 7, b 8, b 9, b 10, b 11, b 12, b 13⟩
       let (s', o) := step c s inp
-      ((c, s'), [b2n o.sReady, b2n o.valid, b2n o.first, b2n o.last, o.payload, b2n o.pid, b2n o.nak,
-                 b2n o.toggle]))
+      -- `obsStep` only ever appends to `pkts` / `prod` and never reads them: run it on emptied logs and
+      -- fold what it appended into the digest (keeps the driver linear in the trace length)
+      let g' := obsStep { g with pkts := [], prod := [] } (inp, o)
+      let d1 := g'.pkts.foldl Digest.addPacket d
+      let d2 := { d1 with nprod := d1.nprod + g'.prod.length }
+      ((c, s', g', d2), [b2n o.sReady, b2n o.valid, b2n o.first, b2n o.last, o.payload, b2n o.pid, b2n o.nak,
+                 b2n o.toggle, d2.npk, d2.nb, d2.hash, d2.nprod]))
